@@ -1,23 +1,26 @@
-//! Direction A: replay one specification behaviour (a call sequence with the
-//! expected observation of its last call) against the real library.
+//! Direction A: replay specification behaviours (a call sequence with the expected
+//! observation of its last call) against the real library.
+//!
+//! Every behaviour TLC prints is the witness path of a state plus one more call, and
+//! the path itself was printed (and replayed) earlier. A worker therefore keeps the
+//! real state reached after every behaviour it has replayed (registers, bindings of
+//! opaque values, key material) and starts each behaviour from the state of its prefix.
 
-use crate::eval::Ctx;
+use crate::eval::{AtomTable, Ctx};
 use crate::ops::{outcome_json, Exec, Outcome, Regs};
 use crate::pool::{pool, PV};
 use crate::project::{check, fingerprint, Keys};
-use bc_components::SymmetricKey;
-use bc_envelope::prelude::*;
 use rand::rngs::StdRng;
 use rand::seq::SliceRandom;
 use rand::{Rng, SeedableRng};
-use serde_json::{json, Value};
-use std::collections::{BTreeSet, HashMap};
+use serde_json::Value;
+use std::collections::HashMap;
+use std::rc::Rc;
 
 #[derive(Debug, Clone)]
 pub struct Failure {
-    /// class of disagreement: outcome | result | wire | source-changed | pre | panic | tool
+    /// class of disagreement: outcome | result | wire | source-changed | pre | panic | tool | observation
     pub kind: String,
-    /// op of the step concerned
     pub op: String,
     /// short stable key used to match known findings
     pub key: String,
@@ -34,45 +37,12 @@ pub struct Stats {
     pub nontrivial: std::collections::HashSet<u64>,
     pub err_kind_notes: HashMap<String, u64>,
     pub pool_kinds: HashMap<String, u64>,
+    pub cache_hits: u64,
+    pub cache_misses: u64,
+    pub skipped_after_failed_prefix: u64,
 }
 
-fn collect_atoms(v: &Value, out: &mut BTreeSet<String>) {
-    match v {
-        Value::Array(a) => {
-            if a.len() == 2 && a[0].as_str() == Some("v") {
-                if let Some(n) = a[1].as_str() {
-                    out.insert(n.to_string());
-                    return;
-                }
-            }
-            for x in a {
-                collect_atoms(x, out);
-            }
-        }
-        Value::Object(m) => {
-            for (_, x) in m {
-                collect_atoms(x, out);
-            }
-        }
-        _ => {}
-    }
-}
-
-fn collect_keys(v: &Value, out: &mut BTreeSet<String>) {
-    // symmetric key ids are plain strings starting with "k"; recipients/signers are handled elsewhere
-    match v {
-        Value::String(s) => {
-            if s.len() <= 3 && s.starts_with('k') && s[1..].chars().all(|c| c.is_ascii_digit()) {
-                out.insert(s.clone());
-            }
-        }
-        Value::Array(a) => a.iter().for_each(|x| collect_keys(x, out)),
-        Value::Object(m) => m.values().for_each(|x| collect_keys(x, out)),
-        _ => {}
-    }
-}
-
-fn fnv(s: &str) -> u64 {
+pub fn fnv(s: &str) -> u64 {
     let mut h: u64 = 0xcbf29ce484222325;
     for b in s.as_bytes() {
         h ^= *b as u64;
@@ -81,33 +51,24 @@ fn fnv(s: &str) -> u64 {
     h
 }
 
-pub fn round_rng(seed: u64, beh_text: &str, round: u64) -> StdRng {
-    StdRng::seed_from_u64(seed ^ fnv(beh_text).rotate_left(17) ^ round.wrapping_mul(0x9E3779B97F4A7C15))
+/// The real state reached after a behaviour.
+#[derive(Clone)]
+pub struct ChainState {
+    pub regs: Regs,
+    pub ctx: Ctx,
+    pub keys: Rc<Keys>,
 }
 
-pub fn make_ctx(beh: &Value, rng: &mut StdRng, restrict: Option<&[&str]>) -> (Ctx, Keys) {
-    let mut names = BTreeSet::new();
-    collect_atoms(beh, &mut names);
-    let mut p: Vec<PV> = pool();
-    if let Some(kinds) = restrict {
-        p.retain(|x| kinds.contains(&x.kind()));
-    }
-    p.shuffle(rng);
-    let mut ctx = Ctx::default();
-    for (i, n) in names.iter().enumerate() {
-        ctx.atoms.insert(n.clone(), p[i % p.len()].clone());
-    }
-    let mut knames = BTreeSet::new();
-    collect_keys(beh, &mut knames);
-    let mut sym = HashMap::new();
-    for k in knames {
-        sym.insert(k, SymmetricKey::new());
-    }
-    (ctx, Keys { sym })
+pub struct Replayer {
+    pub seed: u64,
+    pub rounds: u64,
+    pub stats: Stats,
+    /// (round, text of the steps) -> state; None = that behaviour failed
+    cache: HashMap<(u64, String), Option<ChainState>>,
+    pub cache_cap: usize,
 }
 
 fn elements_of(v: &Value) -> usize {
-    // rough size of an annotated abstract envelope
     match v.get(0).and_then(|x| x.as_str()) {
         Some("node") => 1 + elements_of(&v[1]) + v[2].as_array().map(|a| a.iter().map(elements_of).sum()).unwrap_or(0),
         Some("assn") => 1 + elements_of(&v[1]) + elements_of(&v[2]),
@@ -117,171 +78,244 @@ fn elements_of(v: &Value) -> usize {
     }
 }
 
-/// Replay one behaviour for one round.
-pub fn replay_round(beh: &Value, beh_text: &str, seed: u64, round: u64, stats: &mut Stats) -> Result<(), Failure> {
-    let mut rng = round_rng(seed, beh_text, round);
-    let (mut ctx, keys) = make_ctx(beh, &mut rng, None);
-    for pv in ctx.atoms.values() {
-        *stats.pool_kinds.entry(pv.kind().to_string()).or_insert(0) += 1;
+impl Replayer {
+    pub fn new(seed: u64, rounds: u64) -> Self {
+        Replayer { seed, rounds, stats: Stats::default(), cache: HashMap::new(), cache_cap: 1_500_000 }
     }
-    let steps = beh["steps"].as_array().ok_or_else(|| tool("steps"))?;
-    let pre = beh["pre"].as_array().ok_or_else(|| tool("pre"))?;
-    let nreg = pre.len();
-    let mut regs: Regs = vec![None; nreg];
-    let n = steps.len();
-    let atom_desc: String = {
-        let mut v: Vec<String> = ctx.atoms.iter().map(|(k, p)| format!("{}:{}", k, p.kind())).collect();
-        v.sort();
-        v.join(",")
-    };
-    let fail = |kind: &str, op: &str, key: String, detail: String| Failure {
-        kind: kind.into(),
-        op: op.into(),
-        key,
-        detail: format!("{} [atoms {}]", detail, atom_desc),
-        round,
-    };
 
-    // prefix: execute without checking (each prefix is checked as its own behaviour)
-    for step in &steps[..n - 1] {
+    fn fresh_state(&self, nreg: usize, root_text: &str, round: u64) -> ChainState {
+        let salt = self.seed ^ fnv(root_text).rotate_left(17) ^ round.wrapping_mul(0x9E3779B97F4A7C15);
+        let mut rng = StdRng::seed_from_u64(salt);
+        let mut order: Vec<PV> = pool();
+        order.shuffle(&mut rng);
+        let table = AtomTable { map: HashMap::new(), order, next: 0 };
+        let ctx = Ctx { atoms: Rc::new(std::cell::RefCell::new(table)), ..Default::default() };
+        ChainState { regs: vec![None; nreg], ctx, keys: Rc::new(Keys::new(salt)) }
+    }
+
+    /// Replay one behaviour in every round. Returns the first failure.
+    pub fn replay(&mut self, beh: &Value) -> Result<(), Failure> {
+        self.stats.behaviours += 1;
+        let steps = beh["steps"].as_array().ok_or_else(|| tool("steps"))?;
+        let n = steps.len();
+        let prefix_text = Value::Array(steps[..n - 1].to_vec()).to_string();
+        let full_text = Value::Array(steps.to_vec()).to_string();
+        let root_text = steps[0].to_string();
+        let mut first_err = None;
+        for round in 0..self.rounds {
+            let r = self.replay_round(beh, steps, &prefix_text, &full_text, &root_text, round);
+            if let Err(f) = r {
+                if self.cache.len() < self.cache_cap {
+                    self.cache.insert((round, full_text.clone()), None);
+                }
+                if first_err.is_none() {
+                    first_err = Some(f);
+                }
+            }
+        }
+        match first_err {
+            Some(f) => Err(f),
+            None => Ok(()),
+        }
+    }
+
+    fn start_state(&mut self, beh: &Value, steps: &[Value], prefix_text: &str, root_text: &str, round: u64) -> Result<ChainState, Failure> {
+        let n = steps.len();
+        let nreg = beh["pre"].as_array().map(|a| a.len()).unwrap_or(1);
+        if n == 1 {
+            return Ok(self.fresh_state(nreg, root_text, round));
+        }
+        if let Some(s) = self.cache.get(&(round, prefix_text.to_string())) {
+            self.stats.cache_hits += 1;
+            return match s {
+                Some(st) => Ok(st.clone()),
+                None => {
+                    self.stats.skipped_after_failed_prefix += 1;
+                    Err(Failure { kind: "skip".into(), op: "-".into(), key: "skip:failed-prefix".into(), detail: "prefix failed".into(), round })
+                }
+            };
+        }
+        // not replayed by this worker (cache full, or a hand-made replay file): execute the prefix
+        self.stats.cache_misses += 1;
+        let mut st = self.fresh_state(nreg, root_text, round);
+        let mut rng = StdRng::seed_from_u64(self.seed ^ fnv(prefix_text) ^ round);
+        for step in &steps[..n - 1] {
+            let op = step[0].as_str().unwrap_or("?").to_string();
+            let dst = step[1].as_u64().unwrap_or(0) as usize;
+            let variant: u64 = rng.gen();
+            let keys = st.keys.clone();
+            let out = {
+                let mut ex = Exec { ctx: &mut st.ctx, keys: &keys, variant };
+                ex.exec(step, &st.regs)
+            };
+            match out {
+                Outcome::Env(e) => {
+                    if dst >= 1 {
+                        st.regs[dst - 1] = Some(e);
+                    }
+                }
+                Outcome::Err(_) | Outcome::Obs(_) => {}
+                Outcome::Panic(m) => {
+                    return Err(Failure { kind: "pre".into(), op: op.clone(), key: format!("pre:panic:{}", op), detail: format!("prefix step panicked: {}", m), round })
+                }
+                Outcome::Unsupported(m) => return Err(Failure { kind: "tool".into(), op: op.clone(), key: format!("tool:prefix:{}", op), detail: m, round }),
+            }
+        }
+        // the rebuilt pre-state must be what the specification says it is (also binds opaque values)
+        let pre = beh["pre"].as_array().ok_or_else(|| tool("pre"))?;
+        let keys = st.keys.clone();
+        for (i, p) in pre.iter().enumerate() {
+            let is_none = p.get(0).and_then(|x| x.as_str()) == Some("none");
+            match (&st.regs[i], is_none) {
+                (None, true) => {}
+                (Some(e), false) => {
+                    let e = e.clone();
+                    if let Err(d) = check(p, &e, &mut st.ctx, &keys, &format!("pre[{}]", i + 1)) {
+                        return Err(Failure { kind: "pre".into(), op: "-".into(), key: "pre:mismatch".into(), detail: d, round });
+                    }
+                }
+                _ => return Err(Failure { kind: "pre".into(), op: "-".into(), key: "pre:presence".into(), detail: format!("register {} presence differs", i + 1), round }),
+            }
+        }
+        Ok(st)
+    }
+
+    fn replay_round(&mut self, beh: &Value, steps: &[Value], prefix_text: &str, full_text: &str, root_text: &str, round: u64) -> Result<(), Failure> {
+        let mut st = self.start_state(beh, steps, prefix_text, root_text, round)?;
+        st.ctx.memo.clear();
+        let keys = st.keys.clone();
+        let n = steps.len();
+        let mut rng = StdRng::seed_from_u64(self.seed ^ fnv(full_text).rotate_left(23) ^ round.wrapping_mul(0xD1B54A32D192ED03));
+        let before: Vec<Option<(Vec<u8>, Vec<u8>)>> = st.regs.iter().map(|r| r.as_ref().map(fingerprint)).collect();
+
+        let step = &steps[n - 1];
         let op = step[0].as_str().unwrap_or("?").to_string();
         let dst = step[1].as_u64().unwrap_or(0) as usize;
         let variant: u64 = rng.gen();
-        let mut ex = Exec { ctx: &mut ctx, keys: &keys, variant };
-        match ex.exec(step, &regs) {
-            Outcome::Env(e) => {
-                if dst >= 1 {
-                    regs[dst - 1] = Some(e);
-                }
-            }
-            Outcome::Err(_) | Outcome::Obs(_) => {}
+        let outcome = {
+            let mut ex = Exec { ctx: &mut st.ctx, keys: &keys, variant };
+            ex.exec(step, &st.regs)
+        };
+        let stats = &mut self.stats;
+        stats.evaluations += 1;
+        *stats.per_op.entry(op.clone()).or_insert(0) += 1;
+        let want_out = &beh["out"];
+        let want_class = want_out[0].as_str().unwrap_or("");
+        *stats.per_out.entry(format!("{}:{}", op, want_class)).or_insert(0) += 1;
+        let got = outcome_json(&outcome);
+        let got_class = got[0].as_str().unwrap_or("").to_string();
+        let describe = |ctx: &Ctx| format!("[atoms {}] [keys {}]", ctx.atom_kinds(), keys.describe());
+        let fail = |ctx: &Ctx, kind: &str, key: String, detail: String| Failure {
+            kind: kind.into(),
+            op: op.clone(),
+            key,
+            detail: format!("{} {}", detail, describe(ctx)),
+            round,
+        };
+
+        match &outcome {
             Outcome::Panic(m) => {
-                return Err(fail("pre", &op, format!("pre:panic:{}", op), format!("prefix step panicked: {}", m)))
+                return Err(fail(&st.ctx, "panic", format!("panic:{}:{}", op, panic_site(m)), format!("{} panicked: {}", op, m)));
             }
-            Outcome::Unsupported(m) => return Err(fail("tool", &op, format!("tool:{}", op), m)),
+            Outcome::Unsupported(m) => return Err(fail(&st.ctx, "tool", format!("tool:{}", op), m.clone())),
+            _ => {}
         }
-    }
-    // pre-state must be what the specification says it is (also binds opaque values)
-    for (i, p) in pre.iter().enumerate() {
-        let is_none = p.get(0).and_then(|x| x.as_str()) == Some("none");
-        match (&regs[i], is_none) {
-            (None, true) => {}
-            (Some(e), false) => {
-                if let Err(d) = check(p, e, &mut ctx, &keys, &format!("pre[{}]", i + 1)) {
-                    return Err(fail("pre", "-", "pre:mismatch".into(), d));
+        if got_class != want_class {
+            return Err(fail(
+                &st.ctx,
+                "outcome",
+                format!(
+                    "outcome:{}:{}{}->{}",
+                    op,
+                    want_class,
+                    if want_class == "err" { format!("({})", want_out[1].as_str().unwrap_or("")) } else { String::new() },
+                    got_class
+                ),
+                format!("{}: specification says {} but the library returned {}", op, want_out, got),
+            ));
+        }
+        match &outcome {
+            Outcome::Err(k) => {
+                let wk = want_out[1].as_str().unwrap_or("");
+                let agree = k == wk || k.starts_with("other:");
+                if !agree {
+                    *stats.err_kind_notes.entry(format!("{}:{}!={}", op, wk, k.split(':').next().unwrap_or(""))).or_insert(0) += 1;
                 }
             }
-            _ => return Err(fail("pre", "-", "pre:presence".into(), format!("register {} presence differs", i + 1))),
-        }
-    }
-    let before: Vec<Option<(Vec<u8>, Vec<u8>)>> = regs.iter().map(|r| r.as_ref().map(fingerprint)).collect();
-
-    // the step under test
-    let step = &steps[n - 1];
-    let op = step[0].as_str().unwrap_or("?").to_string();
-    let dst = step[1].as_u64().unwrap_or(0) as usize;
-    let variant: u64 = rng.gen();
-    let outcome = {
-        let mut ex = Exec { ctx: &mut ctx, keys: &keys, variant };
-        ex.exec(step, &regs)
-    };
-    stats.evaluations += 1;
-    *stats.per_op.entry(op.clone()).or_insert(0) += 1;
-    let want_out = &beh["out"];
-    let want_class = want_out[0].as_str().unwrap_or("");
-    *stats.per_out.entry(format!("{}:{}", op, want_class)).or_insert(0) += 1;
-    let got = outcome_json(&outcome);
-    let got_class = got[0].as_str().unwrap_or("").to_string();
-
-    match &outcome {
-        Outcome::Panic(m) => {
-            return Err(fail("panic", &op, format!("panic:{}:{}", op, panic_site(m)), format!("{} panicked: {}", op, m)));
-        }
-        Outcome::Unsupported(m) => return Err(fail("tool", &op, format!("tool:{}", op), m.clone())),
-        _ => {}
-    }
-    if got_class != want_class {
-        return Err(fail(
-            "outcome",
-            &op,
-            format!(
-                "outcome:{}:{}{}->{}",
-                op,
-                want_class,
-                if want_class == "err" { format!("({})", want_out[1].as_str().unwrap_or("")) } else { String::new() },
-                got_class
-            ),
-            format!("{}: specification says {} but the library returned {}", op, want_out, got),
-        ));
-    }
-    match &outcome {
-        Outcome::Err(k) => {
-            let wk = want_out[1].as_str().unwrap_or("");
-            let agree = k == wk || (k.starts_with("other:") && (wk == "crypto" || wk == "corrupt" || wk == "cbor"));
-            if !agree {
-                *stats.err_kind_notes.entry(format!("{}:{}!={}", op, wk, k.split(':').next().unwrap_or(""))).or_insert(0) += 1;
-            }
-        }
-        Outcome::Env(e) => {
-            let exp = &beh["res"];
-            if let Err(d) = check(exp, e, &mut ctx, &keys, "res") {
-                return Err(fail("result", &op, format!("result:{}", op), format!("{}: {}", op, d)));
-            }
-            // serialized bytes = the specification's wire term
-            let w = &beh["wire"];
-            if w.get(0).and_then(|x| x.as_str()) != Some("none") {
-                let want = match ctx.wire(w) {
-                    Ok(b) => Some(b),
-                    Err(er) if er.0.starts_with("opaque:") => None,
-                    Err(er) => return Err(fail("tool", &op, format!("tool:wire:{}", op), er.0)),
-                };
-                let gotb = e.tagged_cbor().to_cbor_data();
-                if want.is_some() && want.as_ref() != Some(&gotb) {
-                    let want = want.unwrap();
-                    return Err(fail(
-                        "wire",
-                        &op,
-                        format!("wire:{}", op),
-                        format!("{}: serialization {} differs from the specified {}", op, hex::encode(&gotb), hex::encode(&want)),
-                    ));
+            Outcome::Env(e) => {
+                let exp = &beh["res"];
+                if let Err(d) = check(exp, e, &mut st.ctx, &keys, "res") {
+                    return Err(fail(&st.ctx, "result", format!("result:{}", op), format!("{}: {}", op, d)));
+                }
+                // serialized bytes = the specification's wire term
+                let w = &beh["wire"];
+                if w.get(0).and_then(|x| x.as_str()) != Some("none") {
+                    let want = match st.ctx.wire(w) {
+                        Ok(b) => Some(b),
+                        Err(er) if er.0.starts_with("opaque:") => None,
+                        Err(er) => return Err(fail(&st.ctx, "tool", format!("tool:wire:{}", op), er.0)),
+                    };
+                    let gotb = {
+                        use bc_envelope::prelude::*;
+                        e.tagged_cbor().to_cbor_data()
+                    };
+                    if let Some(want) = want {
+                        if want != gotb {
+                            return Err(fail(
+                                &st.ctx,
+                                "wire",
+                                format!("wire:{}", op),
+                                format!("{}: serialization {} differs from the specified {}", op, hex::encode(&gotb), hex::encode(&want)),
+                            ));
+                        }
+                    }
+                }
+                if elements_of(exp) >= 2 {
+                    stats.nontrivial.insert(fnv(&format!("{}|{}", op, exp)));
+                }
+                if dst >= 1 {
+                    st.regs[dst - 1] = Some(e.clone());
                 }
             }
-            if elements_of(exp) >= 2 {
-                stats.nontrivial.insert(fnv(&format!("{}|{}", op, exp)));
+            Outcome::Obs(v) => {
+                let natural = natural_type_ok(&want_out[1], step, &st.ctx);
+                if let Err(d) = crate::obs::compare_obs(&op, &want_out[1], v, &mut st.ctx, natural) {
+                    // a "#sub-key#" prefix narrows the failure key (used to match known findings narrowly)
+                    let (sub, d) = match d.strip_prefix('#').and_then(|r| r.split_once("# ")) {
+                        Some((k, rest)) => (format!(":{}", k), rest.to_string()),
+                        None => (String::new(), d),
+                    };
+                    let ty = if op == "obs_extract" { format!(":{}", step[3].as_str().unwrap_or("")) } else { String::new() };
+                    return Err(fail(&st.ctx, "observation", format!("obs:{}{}{}", op, ty, sub), format!("{}: {}", op, d)));
+                }
+                stats.nontrivial.insert(fnv(&format!("{}|{}", op, want_out[1])));
             }
-            if dst >= 1 {
-                regs[dst - 1] = Some(e.clone());
+            _ => {}
+        }
+        if want_class == "err" {
+            stats.nontrivial.insert(fnv(&format!("{}|err|{}", op, beh["pre"])));
+        }
+        // every register other than the destination is untouched, bit for bit
+        for (i, r) in st.regs.iter().enumerate() {
+            if i + 1 == dst && matches!(outcome, Outcome::Env(_)) {
+                continue;
+            }
+            let now = r.as_ref().map(fingerprint);
+            if now != before[i] {
+                return Err(fail(&st.ctx, "source-changed", format!("source-changed:{}", op), format!("{} altered register {}", op, i + 1)));
             }
         }
-        Outcome::Obs(v) => {
-            let natural = natural_type_ok(&want_out[1], step, &ctx);
-            if let Err(d) = crate::obs::compare_obs(&op, &want_out[1], v, &mut ctx, natural) {
-                // a "#sub-key#" prefix narrows the failure key (used to match known findings narrowly)
-                let (sub, d) = match d.strip_prefix('#').and_then(|r| r.split_once("# ")) {
-                    Some((k, rest)) => (format!(":{}", k), rest.to_string()),
-                    None => (String::new(), d),
-                };
-                let ty = if op == "obs_extract" { format!(":{}", step[3].as_str().unwrap_or("")) } else { String::new() };
-                return Err(fail("observation", &op, format!("obs:{}{}{}", op, ty, sub), format!("{}: {}", op, d)));
+        if round == 0 {
+            for pv in st.ctx.atoms.borrow().map.values() {
+                *stats.pool_kinds.entry(pv.kind().to_string()).or_insert(0) += 1;
             }
-            stats.nontrivial.insert(fnv(&format!("{}|{}", op, want_out[1])));
         }
-        _ => {}
-    }
-    if want_class == "err" {
-        stats.nontrivial.insert(fnv(&format!("{}|err|{}", op, beh["pre"])));
-    }
-    // every register other than the destination is untouched, bit for bit
-    for (i, r) in regs.iter().enumerate() {
-        if i + 1 == dst && matches!(outcome, Outcome::Env(_)) {
-            continue;
+        st.ctx.memo.clear();
+        if self.cache.len() < self.cache_cap {
+            self.cache.insert((round, full_text.to_string()), Some(st));
         }
-        let now = r.as_ref().map(fingerprint);
-        if now != before[i] {
-            return Err(fail("source-changed", &op, format!("source-changed:{}", op), format!("{} altered register {}", op, i + 1)));
-        }
+        Ok(())
     }
-    Ok(())
 }
 
 /// For obs_extract on a leaf: is the requested type the value's own type?
@@ -293,7 +327,7 @@ fn natural_type_ok(want: &Value, step: &Value, ctx: &Ctx) -> Option<bool> {
     if atom.get(0).and_then(|x| x.as_str()) != Some("v") {
         return None;
     }
-    let pv = ctx.atoms.get(atom[1].as_str()?)?;
+    let pv = ctx.atom(atom[1].as_str()?)?;
     let ty = step.get(3)?.as_str()?;
     let nat = match pv {
         PV::Str(_) | PV::StrSlice(_) => "String",
@@ -316,7 +350,6 @@ pub fn panic_site(m: &str) -> String {
     if let Some(i) = m.find(" @ ") {
         let loc = &m[i + 3..];
         let loc = loc.rsplit('/').next().unwrap_or(loc);
-        // drop the column
         let parts: Vec<&str> = loc.split(':').collect();
         if parts.len() >= 2 {
             return format!("{}:{}", parts[0], parts[1]);
@@ -326,33 +359,44 @@ pub fn panic_site(m: &str) -> String {
     "?".into()
 }
 
-/// Observation equality: arrays tagged as sets by the specification are
-/// compared as multisets; everything else structurally.
-pub fn obs_equal(want: &Value, got: &Value) -> bool {
-    canon(want) == canon(got)
-}
-fn canon(v: &Value) -> Value {
-    match v {
-        Value::Array(a) => {
-            if a.len() == 2 && a[0].as_str() == Some("set") {
-                if let Some(items) = a[1].as_array() {
-                    let mut c: Vec<Value> = items.iter().map(canon).collect();
-                    c.sort_by_key(|x| x.to_string());
-                    return json!(["set", c]);
-                }
-            }
-            Value::Array(a.iter().map(canon).collect())
-        }
-        _ => v.clone(),
-    }
-}
-
-/// Parse one TLC output line; behaviours are printed as <<"BEH", "json">>.
-pub fn parse_line(line: &str) -> Option<(Value, String)> {
+/// Unescape one TLC output line; behaviours are printed as <<"BEH", "json">>.
+pub fn unescape_line(line: &str) -> Option<String> {
     let l = line.trim();
     let l = l.strip_prefix("<<\"BEH\", ")?;
     let l = l.strip_suffix(">>")?;
-    let inner: String = serde_json::from_str(l).ok()?;
-    let v: Value = serde_json::from_str(&inner).ok()?;
-    Some((v, inner))
+    serde_json::from_str::<String>(l).ok()
+}
+
+/// Text of the first step of a behaviour (its chain root), without a full parse.
+pub fn root_of(inner: &str) -> Option<&str> {
+    let i = inner.find("\"steps\":[")? + 9;
+    let b = inner.as_bytes();
+    if b.get(i) != Some(&b'[') {
+        return None;
+    }
+    let (mut depth, mut in_str, mut esc) = (0i32, false, false);
+    for (j, c) in b[i..].iter().enumerate() {
+        if in_str {
+            if esc {
+                esc = false;
+            } else if *c == b'\\' {
+                esc = true;
+            } else if *c == b'"' {
+                in_str = false;
+            }
+            continue;
+        }
+        match c {
+            b'"' => in_str = true,
+            b'[' => depth += 1,
+            b']' => {
+                depth -= 1;
+                if depth == 0 {
+                    return Some(&inner[i..i + j + 1]);
+                }
+            }
+            _ => {}
+        }
+    }
+    None
 }
